@@ -296,9 +296,9 @@ theorem drain_queue (c : Client.State) (now seq : Nat) (pref : Nat → Option Na
   rw [ClientView.drain_eq]
   exact (ClientView.updateHandlers_spec _ now pref).2.1.trans (ClientView.afterTasks_spec c now seq).2.2.1
 
-theorem sendingChanged_queue (c : Client.State) (p : Nat) (st : Sending) :
-    (Client.sendingChanged c p st).queue = c.queue := by
-  obtain ⟨P, h⟩ := A.sendingChanged_frame c p st
+theorem sendingChanged_queue (c : Client.State) (p src : Nat) (st : Sending) :
+    (Client.sendingChanged c p src st).queue = c.queue := by
+  obtain ⟨P, h⟩ := A.sendingChanged_frame c p src st
   rw [h]
 
 theorem nodeDrain_queue (a : Node.State) : (Node.step a (.drain [] [])).1.client.queue = [] := by
@@ -332,8 +332,8 @@ theorem qev_step (s : State) (act : Act) (h : QEv s) : QEv (step s act) := by
     rw [step_drainA_def, absorbA_a] at ho
     dsimp only at ho
     split at ho
-    · have e : (Node.step (Node.step s.a (.drain [] [])).1 (.sending 1 (.sending 1))).1.client.queue = [] :=
-        (sendingChanged_queue _ _ _).trans (nodeDrain_queue s.a)
+    · have e : (Node.step (Node.step s.a (.drain [] [])).1 (.sending 1 1 (.sending 1))).1.client.queue = [] :=
+        (sendingChanged_queue _ _ _ _).trans (nodeDrain_queue s.a)
       rw [e] at ho; cases ho
     · rw [nodeDrain_queue] at ho; cases ho
   | drainB =>
@@ -362,8 +362,8 @@ theorem qev_step (s : State) (act : Act) (h : QEv s) : QEv (step s act) := by
     split
     · exact h
     · intro o ho
-      have e : (Node.step s.a (.sending 1 .ready)).1.client.queue = s.a.client.queue :=
-        sendingChanged_queue _ _ _
+      have e : (Node.step s.a (.sending 1 1 .ready)).1.client.queue = s.a.client.queue :=
+        sendingChanged_queue _ _ _ _
       exact h o (e ▸ ho)
   | deliverBA =>
     simp only [step]
